@@ -350,7 +350,7 @@ func (h *harness) monitorAt(lc *logCase, pl []placed, fileIdx int, variant strin
 		return b.String()
 	}
 	if rr.line == "panic" {
-		c.Fail("reader-panic:ReadAll", "Reader.ReadAll panics (slice bounds in ParseEnvelope: 3+dbLen wraps in uint16) instead of returning entries or an error", replay())
+		c.Fail("reader-panic:ReadAll", "Reader.ReadAll panics instead of returning entries or an error", replay())
 		return
 	}
 	if !rr.ok {
